@@ -46,6 +46,7 @@ GUARDS = [
 MORE_GUARDS = [
     ("labelsOK", "{S}.labelsOKB"),        # every automaton edge is labelled with a node type of the schema (C11 `fit_emits_wf`)
     ("textStableC", "textStableC {S}"),   # Bool form of C01's `TextStable` (C11 `coherent_invariant`, C12)
+    ("closable", "{S}.closableB"),        # `fill_before(Fragment.empty, True)` is never `None` (C11 `insertInline_emits_valid_payload`)
 ]
 # guards outside the bundle: they hold of a part of the family only
 EXTRA_GUARDS = [
@@ -280,7 +281,8 @@ def render(items):
     # one module per guard: a check builds (and is broken by) only the guards its theorems use
     for field, term in GUARDS + MORE_GUARDS + EXTRA_GUARDS:
         Field = field[0].upper() + field[1:]
-        lg = [HEADER.rstrip("\n"), "import Gen.Schemas", "import Props.Family", "import PM.Structure2", "namespace PM.Gen.Guards",
+        lg = [HEADER.rstrip("\n"), "import Gen.Schemas", "import Props.Family", "import PM.Structure2", "import PM.FitGuards",
+              "namespace PM.Gen.Guards",
               "open PM PM.FromDom PM.Gen.Schemas", ""]
         for name, ident, fam, sd, dump in items:
             lg.append("theorem %s_%s : %s = %s := by decide +kernel" % (
